@@ -30,5 +30,19 @@ func WithoutQualifiers(fields []physical.SchemaField) []physical.SchemaField {
 			Type: fields[i].Type,
 		}
 	}
+	// A shortened name must not collide with another printed name either (`t.u.a` -> `u.a` next to a kept `u.a`).
+	for changed := true; changed; {
+		changed = false
+		printed := map[string]int{}
+		for i := range outFields {
+			printed[outFields[i].Name]++
+		}
+		for i := range outFields {
+			if printed[outFields[i].Name] > 1 && outFields[i].Name != fields[i].Name {
+				outFields[i].Name = fields[i].Name
+				changed = true
+			}
+		}
+	}
 	return outFields
 }
